@@ -204,4 +204,43 @@ def runOp (w : IWorld) : Op → Bool × IWorld
     let w2 := { w1 with batch := saved }
     (r, if saved then w2 else flush w2)
 
+/-! ### on_init methods that assign a parameter during construction
+
+`_update_deps(init=True)` calls the `on_init` methods only after EVERY watcher of the object is
+installed, so an assignment made by an on_init method reaches every method depending on the assigned
+parameter — also one registered later.  An assigning method assigns on its FIRST invocation only (be it
+the on_init call or a call made by a watcher before that), so the cascade is finite; `fuel` bounds the
+Python recursion.  No batching is involved (queued watchers are excluded by the generator). -/
+
+/-- method name ↦ (parameter, value) it assigns on its first invocation -/
+abbrev Assigns := List (Name × (Name × Int))
+
+def assignOf (as : Assigns) (m : Name) : Option (Name × Int) :=
+  match as.find? (fun a => a.1 = m) with
+  | some a => some a.2
+  | none => none
+
+/-- one invocation of method `m` (by `_update_deps` or by a watcher): log; on the first invocation of
+an assigning method `self.p = v`, dispatched at once to the sorted watchers of `p` -/
+def invokeInit (as : Assigns) : Nat → IWorld × List Name → Name → IWorld × List Name
+  | 0, st, _ => st
+  | f + 1, (w, done), m =>
+    let w1 := { w with log := w.log ++ [m] }
+    match assignOf as m with
+    | none => (w1, done)
+    | some (p, v) =>
+      if done.contains m then (w1, done)
+      else
+        match getKey w1.vals ⟨p, "value"⟩ with
+        | none => (w1, m :: done)
+        | some old =>
+          let w2 := { w1 with vals := setVal w1.vals ⟨p, "value"⟩ v }
+          if old = v then (w2, m :: done)
+          else (sortByPrec (watchersFor w2.regs ⟨p, "value"⟩)).foldl (fun st x => invokeInit as f st x.method) (w2, m :: done)
+
+/-- a fresh instance whose on_init methods may assign -/
+def instantiateA (table : List Entry) (vals : List (Key × Int)) (as : Assigns) : IWorld :=
+  let w0 : IWorld := { vals := vals, regs := installAll 0 table, batch := false, events := [], queued := [], log := [] }
+  ((initCalls [] table).foldl (fun st m => invokeInit as (table.length + 2) st m) (w0, [])).1
+
 end ParamVerif.Depends
